@@ -47,8 +47,8 @@ type session struct {
 	issuedAt time.Time
 }
 
-var userPass = map[string]string{"alice": "pw-alice", "bob": "pw-bob"}
-var userID = map[string]string{"alice": "u1", "bob": "u2"}
+var userPass = map[string]string{"alice": "pw-alice", "bob": "pw-bob", "carol": "pw-carol"}
+var userID = map[string]string{"alice": "u1", "bob": "u2", "carol": "tenant1:carol"}
 
 func fill(w *world.World, o *flowOpts) {
 	if o.client == "" {
